@@ -142,15 +142,16 @@ Theorem C04_floatlit_correct : forall (F : fops) suffix_f bits, floatlit F suffi
 Proof. exact floatlit_correct. Qed.
 Print Assumptions C04_floatlit_correct.
 
-(* floating -> integer conversions (Flocq binary64): the range tests make the host conversion defined, and a
-   folded conversion is the truncated value reduced to the target type *)
+(* floating -> integer conversions (Flocq binary64): the range tests `!(f >= -0x1p63 && f < 0x1p63)` and
+   `!(f > -1.0 && f < 0x1p64)` make the host conversion defined, and a folded conversion is the truncated value
+   reduced to the target type *)
 Theorem C04_float_to_int_guard_signed : forall c z,
-  flt c mtwo63 = false -> fge c two63 = false -> f_trunc c = Some z -> - 2 ^ 63 <= z < 2 ^ 63.
+  fge c mtwo63 = true -> flt c two63 = true -> f_trunc c = Some z -> - 2 ^ 63 <= z < 2 ^ 63.
 Proof. exact float_to_int_guard_signed. Qed.
 Print Assumptions C04_float_to_int_guard_signed.
 
 Theorem C04_float_to_int_guard_unsigned : forall c z,
-  fle c mone = false -> fge c two64 = false -> f_trunc c = Some z -> 0 <= z < 2 ^ 64.
+  fgt c mone = true -> flt c two64 = true -> f_trunc c = Some z -> 0 <= z < 2 ^ 64.
 Proof. exact float_to_int_guard_unsigned. Qed.
 Print Assumptions C04_float_to_int_guard_unsigned.
 
@@ -167,6 +168,26 @@ Theorem C04_float_to_unsigned_total : forall k c z, wf_ity k -> isigned k = fals
   f_trunc c = Some z -> in_range k z -> cast_const flocq_ops (TInt k) (TFloat 8) c <> Diag.
 Proof. exact float_to_unsigned_total. Qed.
 Print Assumptions C04_float_to_unsigned_total.
+
+(* the undefined host conversion is never reached: for every integer type, either float size and EVERY 64-bit
+   pattern - NaNs of any sign/payload, +inf and -inf included - the conversion of a constant yields a value or a
+   diagnostic (fixed in /repo 1b74a9a, found by C19: both old range tests were false for a NaN).  No side condition
+   on k or sz is needed. *)
+Theorem C04_float_to_int_never_host_ub : forall k sz c,
+  cast_const flocq_ops (TInt k) (TFloat sz) c <> HostUB.
+Proof. exact float_to_int_never_host_ub. Qed.
+Print Assumptions C04_float_to_int_never_host_ub.
+
+(* ... in fact for every pair of types eval()'s EXPRCAST case can meet *)
+Theorem C04_cast_const_never_host_ub : forall t lt c, cast_const flocq_ops t lt c <> HostUB.
+Proof. exact cast_const_never_host_ub. Qed.
+Print Assumptions C04_cast_const_never_host_ub.
+
+(* ... and a NaN is diagnosed, whatever the integer type *)
+Theorem C04_nan_to_int_diag : forall k sz c, is_nan_bits c = true ->
+  cast_const flocq_ops (TInt k) (TFloat sz) c = Diag.
+Proof. exact nan_to_int_diag. Qed.
+Print Assumptions C04_nan_to_int_diag.
 
 (* ---- non-vacuity ---- *)
 (* fold_correct: hypotheses satisfiable at the boundaries; INT_MIN / -1 and 1 << 31 are (rightly) excluded *)
@@ -203,4 +224,22 @@ Example C04_nonvacuous_float :
   cast_const flocq_ops (TInt t_uint) (TFloat 8) mone = Diag /\
   floatlit flocq_ops true 0x3fb999999999999a = 0x3fb99999a0000000 /\
   f_trunc 0xc00e000000000000 = Some (-3).
+Proof. vm_compute. repeat split; reflexivity. Qed.
+
+(* NaN (quiet, negative quiet with payload, signalling), +inf and -inf are diagnosed for signed and unsigned targets;
+   the last finite doubles inside the ranges still fold *)
+Example C04_nan_inf_diag :
+  is_nan_bits nanbits = true /\ is_nan_bits 0xfff8000000000001 = true /\ is_nan_bits 0x7ff0000000000001 = true /\
+  cast_const flocq_ops (TInt t_int) (TFloat 8) nanbits = Diag /\
+  cast_const flocq_ops (TInt t_uint) (TFloat 4) nanbits = Diag /\
+  cast_const flocq_ops (TInt t_long) (TFloat 8) 0xfff8000000000001 = Diag /\
+  cast_const flocq_ops (TInt t_ulong) (TFloat 8) 0x7ff0000000000001 = Diag /\
+  cast_const flocq_ops (TInt t_schar) (TFloat 4) 0x7ff0000000000000 = Diag /\
+  cast_const flocq_ops (TInt t_uchar) (TFloat 8) 0x7ff0000000000000 = Diag /\
+  cast_const flocq_ops (TInt t_long) (TFloat 8) 0xfff0000000000000 = Diag /\
+  cast_const flocq_ops (TInt t_ulong) (TFloat 4) 0xfff0000000000000 = Diag /\
+  cast_const flocq_ops (TInt t_long) (TFloat 8) mtwo63 = Val (repr t_long (- 2 ^ 63)) /\
+  cast_const flocq_ops (TInt t_long) (TFloat 8) 0x43dfffffffffffff = Val (repr t_long (2 ^ 63 - 1024)) /\
+  cast_const flocq_ops (TInt t_ulong) (TFloat 8) 0x43efffffffffffff = Val (repr t_ulong (2 ^ 64 - 2048)) /\
+  cast_const flocq_ops (TInt t_ulong) (TFloat 8) 0xbfefffffffffffff = Val 0.
 Proof. vm_compute. repeat split; reflexivity. Qed.
